@@ -29,7 +29,8 @@ SELF = ("param", "self")
 
 # cross-row uses of partial counts that are harmless, confirmed by reading (one line of reason each)
 R3_ALLOW = {
-    "BootstrapElectionModel._extrapolate_unit_margin|for postal_code in nonreporting_units[modeling_filter].postal_code.unique():":
+    # keys are construct keys with local variable names anonymised (util.anon_locals)
+    "BootstrapElectionModel._extrapolate_unit_margin|for ? in nonreporting_units[?].postal_code.unique():":
         "only decides WHICH states are looped over; inside the loop every nonreporting unit is handled through its own filter "
         "(nonreporting_filter) and receives corrections computed from reporting units only",
 }
@@ -101,7 +102,14 @@ def _fit_provenance(ctx):
                "no fit argument reads a partial count of a nonreporting unit" if not bad
                else f"fit argument {ir.show(bad[0], maxdepth=3)} reads partial counts of nonreporting units")
     # the primary regressions take targets and weights straight from the reporting frame
-    prim = {n_: t for _, n_, t, _ in cs.assigns if n_ in ("y_train", "z_train", "weights_train")}
+    # the first two fits (original models): y / weights arguments are columns of the reporting frame
+    prim = {}
+    for x in fits:
+        args_ = list(x[2]) + [v for k, v in x[3] if k != "#new"]
+        if any(a[0] == "call" and a[1][0] == "attr" and a[1][2] == "reshape" and a[1][1][0] == "attr" and a[1][1][1][0] == "sub" and a[1][1][1][1] == RU for a in args_):
+            for a in args_:
+                if a[0] == "call" and a[1][0] == "attr" and a[1][2] == "reshape" and a[1][1][0] == "attr" and a[1][1][1][0] == "sub":
+                    prim[a[1][1][1][2]] = a
     okp = len(prim) == 3 and all(_depends_on(t, RU) and not _depends_on(t, NU) for t in prim.values())
     ctx.ob("C10.R1.fit-data", f"{cf.qualname}|primary targets and weights", okp, cf.where(),
            "normalised margin, turnout factor and weights of the training rows are columns of the reporting frame" if okp
@@ -146,19 +154,90 @@ def _train_slice_only(a):
     return ok
 
 
+def _frame_names(m):
+    """Local names that denote (a view / copy / row subset / expansion of) a data frame handed to the method."""
+    a = m.node.args
+    names = {x.arg for x in a.posonlyargs + a.args + a.kwonlyargs
+             if x.annotation is not None and ast.unparse(x.annotation).endswith("DataFrame")}
+    changed = True
+    while changed:
+        changed = False
+        for n in util.own_nodes(m, ast.Assign):
+            if len(n.targets) != 1 or not isinstance(n.targets[0], ast.Name) or n.targets[0].id in names:
+                continue
+            v = n.value
+            root = None
+            if isinstance(v, ast.Name):
+                root = v
+            elif isinstance(v, ast.Subscript) and isinstance(v.value, ast.Name):
+                root = v.value
+            elif isinstance(v, ast.Call) and isinstance(v.func, ast.Attribute) and v.func.attr == "copy" and isinstance(v.func.value, ast.Name):
+                root = v.func.value
+            elif isinstance(v, ast.Call) and isinstance(v.func, ast.Attribute) and isinstance(v.func.value, ast.Name) and v.func.value.id == "self" \
+                    and v.args and isinstance(v.args[0], ast.Name):
+                root = v.args[0]
+            if root is not None and root.id in names:
+                names.add(n.targets[0].id)
+                changed = True
+    return names
+
+
+def _dirty_literals(cls, m, expr, frames, seen, depth=0):
+    """String literals naming results-derived columns that can reach `expr` through local definitions, loop / comprehension
+    variables and attributes of self (depth-bounded, flow-insensitive over-approximation)."""
+    out = []
+    if depth > 6:
+        return out
+    for n in ast.walk(expr):
+        if isinstance(n, ast.Constant) and isinstance(n.value, str) and partial_name(("const", n.value)):
+            out.append((n.value, m.where(n)))
+        elif isinstance(n, ast.Name) and isinstance(n.ctx, ast.Load) and n.id not in frames and n.id != "self":
+            k = (m.fq, n.id)
+            if k in seen:
+                continue
+            seen.add(k)
+            for d in ast.walk(m.node):
+                src = None
+                if isinstance(d, (ast.Assign, ast.AugAssign, ast.AnnAssign)) and d.value is not None:
+                    tg = d.targets if isinstance(d, ast.Assign) else [d.target]
+                    if any(isinstance(x, ast.Name) and x.id == n.id for t in tg for x in ast.walk(t)):
+                        src = d.value
+                elif isinstance(d, (ast.For, ast.comprehension)):
+                    if any(isinstance(x, ast.Name) and x.id == n.id for x in ast.walk(d.target)):
+                        src = d.iter
+                elif isinstance(d, ast.Call) and isinstance(d.func, ast.Attribute) and d.func.attr in ("append", "extend") \
+                        and isinstance(d.func.value, ast.Name) and d.func.value.id == n.id and d.args:
+                    src = d.args[0]
+                if src is not None:
+                    out += _dirty_literals(cls, m, src, frames, seen, depth + 1)
+        elif isinstance(n, ast.Attribute) and isinstance(n.value, ast.Name) and n.value.id == "self" and isinstance(n.ctx, ast.Load):
+            k = ("self", n.attr)
+            if k in seen:
+                continue
+            seen.add(k)
+            for m2 in cls.methods.values():
+                for d in util.own_nodes(m2, (ast.Assign, ast.AugAssign)):
+                    tg = d.targets if isinstance(d, ast.Assign) else [d.target]
+                    if any(isinstance(t, ast.Attribute) and isinstance(t.value, ast.Name) and t.value.id == "self" and t.attr == n.attr for t in tg):
+                        out += _dirty_literals(cls, m2, d.value, _frame_names(m2), seen, depth + 1)
+    return out
+
+
 def _feature_purity(ctx):
     repo = ctx.repo
     cls = repo.cls(FZ, "Featurizer")
     allowed_attrs = {"reporting", "unit_category", "postal_code"}
-    nreads = 0
+    frame_methods = {"copy", "loc", "columns", "values", "sum", "astype", "iloc", "index", "shape", "mean", "std"}
+    nreads = nsym = 0
     for m in cls.methods.values():
+        frames = _frame_names(m)
         for n in util.own_nodes(m):
             name = None
-            if isinstance(n, ast.Attribute) and isinstance(n.value, ast.Name) and n.value.id == "df" and isinstance(n.ctx, ast.Load):
-                if n.attr in ("copy", "loc", "columns", "values", "sum", "astype", "iloc", "index", "shape", "mean", "std"):
+            if isinstance(n, ast.Attribute) and isinstance(n.value, ast.Name) and n.value.id in frames and isinstance(n.ctx, ast.Load):
+                if n.attr in frame_methods:
                     continue
                 name = n.attr
-            elif isinstance(n, ast.Subscript) and isinstance(n.value, ast.Name) and n.value.id in ("df", "df_fitting") and isinstance(n.slice, ast.Constant):
+            elif isinstance(n, ast.Subscript) and isinstance(n.value, ast.Name) and n.value.id in frames and isinstance(n.slice, ast.Constant):
                 name = n.slice.value
             if name is None or not isinstance(name, str):
                 continue
@@ -167,20 +246,22 @@ def _feature_purity(ctx):
             ctx.ob("C10.R2.reads", f"{m.qualname}|df.{name}", ok and not partial_name(("const", name)), m.where(n),
                    f"featurizer reads '{name}' (not a results-derived column)" if ok
                    else f"featurizer reads column '{name}': covariates must not be derived from (partial) results")
-    ctx.sites("C10.R2", nreads, 4, "literal column reads in the featurizer")
-    # the configured names are the only other columns it touches
-    symbolic = set()
-    for m in cls.methods.values():
+        # computed selections: no literal naming a results-derived column may reach them
         for n in util.own_nodes(m, ast.Subscript):
-            if isinstance(n.value, ast.Name) and n.value.id in ("df", "df_fitting") and not isinstance(n.slice, ast.Constant):
-                symbolic.add(ast.unparse(n.slice))
-    known = {"self.features", "self.fixed_effect_cols", "self.complete_features", "self.active_features", "fe", "feature", "state_feature",
-             "all_expanded_fixed_effects", "fe_active_fixed_effects", "fe_inactive_fixed_effects", "np.isclose(df.reporting, 1)",
-             "df.reporting & (df.unit_category == 'expected')"}
-    extra = sorted(symbolic - known)
-    ctx.ob("C10.R2.symbolic", "Featurizer|computed column selections", not extra, "src/elexmodel/handlers/data/Featurizer.py",
-           "all other column selections are the configured features / fixed effects and their expansions" if not extra
-           else f"featurizer also selects {extra}")
+            sl = None
+            if isinstance(n.value, ast.Name) and n.value.id in frames and not isinstance(n.slice, ast.Constant):
+                sl = n.slice
+            elif isinstance(n.value, ast.Attribute) and n.value.attr in ("loc", "iloc") and isinstance(n.value.value, ast.Name) and n.value.value.id in frames:
+                sl = n.slice
+            if sl is None:
+                continue
+            nsym += 1
+            dirty = _dirty_literals(cls, m, sl, frames, set())
+            ctx.ob("C10.R2.symbolic", util.key(m, n), not dirty, m.where(n),
+                   "the selected columns are computed from the configured features / fixed effects only" if not dirty
+                   else f"a results-derived column name reaches this selection: {dirty[0][0]!r} ({dirty[0][1]})")
+    ctx.sites("C10.R2", nreads, 4, "literal column reads in the featurizer")
+    ctx.sites("C10.R2.symbolic", nsym, 8, "computed column selections in the featurizer")
 
 
 def _row_locality(ctx):
@@ -207,15 +288,15 @@ def _row_locality(ctx):
     ctx.extra["functions_tainted_analysis"] = sorted({k[0].qualname for k in cr._done})
     used_allow = set()
     for fd in cr.findings:
-        reason = R3_ALLOW.get(fd.key)
+        reason = R3_ALLOW.get(fd.anon)
         if reason:
-            used_allow.add(fd.key)
+            used_allow.add(fd.anon)
             ctx.ob("C10.R3.row-local", fd.key, True, fd.where, f"cross-row use allowed: {reason}")
         else:
             ctx.ob("C10.R3.row-local", fd.key, False, fd.where,
                    f"a partial count of a not-yet-reporting unit reaches an operation that mixes units ({fd.why}; taint: {', '.join(fd.kinds)}): "
                    f"changing that unit's partial count changes other units' estimates")
-    if not [f for f in cr.findings if f.key not in R3_ALLOW]:
+    if not [f for f in cr.findings if f.anon not in R3_ALLOW]:
         ctx.ob("C10.R3.row-local", "unit-level model code|no cross-row use of partial counts", True, "src/elexmodel/models",
                f"{cr.sinks_seen} fits / draws / row-axis reductions / products checked in {len(cr._done)} function contexts; partial counts reach "
                f"none of them (frozen exceptions: {len(used_allow)})")
